@@ -123,6 +123,37 @@ def judge(ctx, case):
     except Exception as e:  # pylint: disable=broad-except
         ctx.fail("raises", full, f"{formula!r}: inspecting labels raised {type(e).__name__}: {e}", core.exc_key(e))
         return
+    # the same labels on the same frame evaluated as new data; and the original group matrix after new data with an
+    # unseen group were evaluated (silent mode) still has the columns its labels say
+    from formulae import config
+
+    try:
+        if dm.common is not None:
+            again = dm.common.evaluate_new_data(frame)
+            compare_columns(ctx, full, "common matrix on the frame as new data", list(again.as_dataframe().columns), again.design_matrix, frame, atoms)
+        if dm.group is not None:
+            again = dm.group.evaluate_new_data(frame)
+            for name, term in dm.group.terms.items():
+                compare_columns(ctx, full, f"group term {name} on the frame as new data", list(term.labels), again[name], frame, atoms)
+            new = frame.iloc[: min(4, len(frame))].copy()
+            for col_ in ("f", "g", "h"):
+                if col_ in new.columns:
+                    new[col_] = new[col_].astype(object)
+                    new.iloc[0, new.columns.get_loc(col_)] = "zz"
+            if "k" in new.columns:
+                new.iloc[0, new.columns.get_loc("k")] = 999
+            config["EVAL_UNSEEN_CATEGORIES"] = "silent"
+            try:
+                with core.Silence():
+                    dm.group.evaluate_new_data(new)
+            except Exception:  # pylint: disable=broad-except
+                pass
+            finally:
+                config["EVAL_UNSEEN_CATEGORIES"] = "error"
+            for name, term in dm.group.terms.items():
+                compare_columns(ctx, full, f"group term {name} after new data with unseen groups were evaluated", list(term.labels), dm.group[name], frame, atoms)
+    except Exception as e:  # pylint: disable=broad-except
+        ctx.fail("raises", full, f"{formula!r}: evaluating the frame as new data raised {type(e).__name__}: {e}", "new_data:" + core.exc_key(e))
     # level order: sorted for unordered data, declared order for ordered categoricals
     for a in atoms:
         if not rc.is_cat(a):
